@@ -392,8 +392,13 @@ func TestC20(t *testing.T) {
 		n := rapid.IntRange(0, 5).Draw(rt, "nRegs")
 		for i := 0; i < n; i++ {
 			kind := rapid.SampledFrom([]string{"key", "filter", "conditional", "update"}).Draw(rt, "regKind")
+			pool := c20Texts[kind]
+			if kind != "update" && rapid.IntRange(0, 2).Draw(rt, "crossPool") == 0 {
+				// the same text registered under another matcher kind must not be used
+				pool = c20Texts[rapid.SampledFrom([]string{"key", "filter", "conditional"}).Draw(rt, "poolKind")]
+			}
 			c.Regs = append(c.Regs, c20Reg{ID: i + 1, Table: rapid.SampledFrom([]string{"tblA", "tblB"}).Draw(rt, "regTable"), Kind: kind,
-				Text: rapid.SampledFrom(c20Texts[kind]).Draw(rt, "regText"), Verdict: rapid.Bool().Draw(rt, "verdict")})
+				Text: rapid.SampledFrom(pool).Draw(rt, "regText"), Verdict: rapid.Bool().Draw(rt, "verdict")})
 		}
 		table := rapid.SampledFrom([]string{"tblA", "tblB"}).Draw(rt, "reqTable")
 		key := model.Item{"pk": model.Str("p1"), "sk": model.Str(rapid.SampledFrom([]string{"a", "b", "zz"}).Draw(rt, "reqSk"))}
@@ -402,6 +407,10 @@ func TestC20(t *testing.T) {
 			if len(c.Regs) > 0 && rapid.IntRange(0, 9).Draw(rt, label+"Related") < 6 {
 				r := rapid.SampledFrom(c.Regs).Draw(rt, label+"Reg")
 				if r.Kind == kind || (kind != "update" && r.Kind != "update" && kind != "key" && r.Kind != "key") {
+					return r.Text
+				}
+				// a key-shaped text registered under another matcher kind
+				if kind == "key" && r.Kind != "update" && strings.Contains(r.Text, "pk") {
 					return r.Text
 				}
 			}
